@@ -1,0 +1,58 @@
+//go:build verif
+
+// Contracts for package esql, read by /verif/gvc (comment-only file; it declares
+// nothing and is compiled only with -tags verif).
+package esql
+
+// ---- C20: client-supplied identifiers are data ----------------------------------------
+// Statement text handed to the database must be 'sqlfixed' (program constants and names
+// from the configured schema only). Every clause below is a KNOWN FINDING: the element
+// id "<table>:<key>" supplied by the client is split and both halves are spliced into
+// the text unquoted.
+
+//@ func (*Graph).GetVertex
+//@   property C20
+//@   option prelude=sql
+//@   requires nonnil: g != nil && g.db != nil && g.schema != nil
+//@   callsite DB).QueryRowx requires fixed: sqlfixed(arg1)
+
+//@ func (*Graph).getTableBackedEdge
+//@   property C20
+//@   option prelude=sql
+//@   requires nonnil: g != nil && g.db != nil && g.schema != nil
+//@   callsite DB).QueryRowx requires fixed: sqlfixed(arg1)
+
+//@ func (*Graph).GetVertexChannel$1
+//@   property C20
+//@   option prelude=sql
+//@   option load=gdbi
+//@   requires nonnil: g != nil && g.db != nil && g.schema != nil
+//@   callsite DB).Queryx requires fixed: sqlfixed(arg1)
+
+//@ func (*Graph).GetOutChannel$1
+//@   property C20
+//@   option prelude=sql
+//@   option load=gdbi
+//@   requires nonnil: g != nil && g.db != nil && g.schema != nil
+//@   callsite DB).Queryx requires fixed: sqlfixed(arg1)
+
+//@ func (*Graph).GetInChannel$1
+//@   property C20
+//@   option prelude=sql
+//@   option load=gdbi
+//@   requires nonnil: g != nil && g.db != nil && g.schema != nil
+//@   callsite DB).Queryx requires fixed: sqlfixed(arg1)
+
+//@ func (*Graph).GetOutEdgeChannel$1
+//@   property C20
+//@   option prelude=sql
+//@   option load=gdbi
+//@   requires nonnil: g != nil && g.db != nil && g.schema != nil
+//@   callsite DB).Queryx requires fixed: sqlfixed(arg1)
+
+//@ func (*Graph).GetInEdgeChannel$1
+//@   property C20
+//@   option prelude=sql
+//@   option load=gdbi
+//@   requires nonnil: g != nil && g.db != nil && g.schema != nil
+//@   callsite DB).Queryx requires fixed: sqlfixed(arg1)
